@@ -162,7 +162,7 @@ fn run_join(entry: &Entry, sim: &mut Sim, knobs: &sched::Knobs) -> Outcome {
             }
         }
     }
-    let plan = Plan { rel: vec![rel_resp, rel_meta], max_drain: 0, extra: 2 };
+    let plan = Plan { rel: vec![rel_resp, rel_meta], max_drain: 0, extra: 2, pends: vec![] };
     sim.event(0x3950 + metas.len() as u64, || format!("join_responses releases (responses, metadata) {:?}", plan.rel));
     let ex = (entry.exec)(&plan, &mut EagerNet::default());
     let got = sorted(ex.all(0));
